@@ -95,6 +95,8 @@ def make_registry():
     ghost.install(R)
     from . import models
     models.install(R)
+    from . import pdmodel
+    pdmodel.install(R)
     return R
 
 
